@@ -123,8 +123,48 @@ def register_family_cases(g):
     return doc, insts, "register-family-%s" % ("same" if l1 == l2 else "other")
 
 
+def register_family_in_deref(g):
+    """a register family bound by a plain operand and used again, at 64 bits, as a component of a `$deref`: the memory
+    operand must be based on the SAME architectural register"""
+    fam = g.pick(["&genreg", "&genreg", "&indreg", "&stackreg", "&basereg"])
+    t = REGS[fam]
+    base = fam + g.pick(["", "-1", "-mem"])
+    n1 = base + g.pick(["", ".64"])
+    l1 = g.pick(t["letters"])
+    l2 = l1 if g.chance(0.5) or len(t["letters"]) == 1 else g.pick([x for x in t["letters"] if x != l1])
+
+    def r64(letter):
+        f = t["64"]
+        return "%" + (f % letter if "%s" in f else f)
+    field = g.pick(["main_reg", "main_reg", "register_multiplier"])
+    if field == "main_reg":
+        deref, op = {"main_reg": base + ".64", "constant_offset": "8"}, "0x8(%s)" % r64(l2)
+    else:
+        deref, op = {"main_reg": "rdi", "register_multiplier": base + ".64", "constant_multiplier": 4}, "(%%rdi,%s,4)" % r64(l2)
+    if fam == "&stackreg" and field != "main_reg":
+        deref, op = {"main_reg": base + ".64", "constant_offset": "8"}, "0x8(%s)" % r64(l2)      # %rsp cannot be an index
+    m1, m2 = g.pick(["push", "inc"]), g.pick(["mov", "lea"])
+    doc = {"pattern": [{m1: [n1]}, {m2: [{"$deref": deref}, "r11"]}]}
+    other = len(t["letters"]) > 1 and l1 != l2
+    insts = [("1000", m1, [r64(l1)]), ("1002", m2, [op, "%r11"]), ("1009", "ret", [])]
+    return doc, insts, (not other), "register-family-in-deref-%s" % ("other" if other else "same")
+
+
 def run(ctx, factor):
     rep = ctx.report
+    for _ in range(ctx.budget(24, 600) * factor):
+        doc, insts, exp, tag = register_family_in_deref(ctx.g)
+        o = patdiff.observe(ctx, doc, insts, modes=("bool",))
+        usable = patdiff.correspondence(ctx, o)
+        if o.get("impl_bool") is not None and o["impl_bool"] != ("ok", exp):
+            # the recorded register-family findings (D5, D15) cover a violation only where the pinned model shows it too
+            mo = o.get("model")
+            model_found = bool(mo[1].get("first")) if mo and mo[0] == "ok" else None
+            rep.violate("register-family-inside-deref", patdiff.case_of(o), {"found": exp}, {"found": o.get("impl_bool")},
+                        model_agrees_with_spec=(model_found == exp) if model_found is not None else None)
+        rep.case(patdiff.case_of(o), o.get("impl_bool", ("", ""))[0] == "ok", tags=[tag])
+        if rep.has_new() and factor > 1:
+            break
     for _ in range(ctx.budget(40, 1500) * factor):
         doc, insts, tag = register_family_cases(ctx.g)
         o = patdiff.observe(ctx, doc, insts, modes=("bool", "all", "first"))
@@ -132,7 +172,7 @@ def run(ctx, factor):
         if usable:
             patdiff.spec_verdict(ctx, o)
         rep.case(patdiff.case_of(o), usable, tags=[tag])
-        if rep.violations and factor > 1:
+        if rep.has_new() and factor > 1:
             break
     for _ in range(ctx.budget(30, 1000) * factor):
         doc, insts, tag = whole_instruction_cases(ctx.g)
@@ -141,7 +181,7 @@ def run(ctx, factor):
         if usable:
             patdiff.spec_verdict(ctx, o)
         rep.case(patdiff.case_of(o), usable, tags=[tag])
-        if rep.violations and factor > 1:
+        if rep.has_new() and factor > 1:
             return
     ctx.report.rule = ("rules with 1-5 capture names (&i,&j instruction level; &a,&b,&c operand level), definitions on "
                        "the spine in any order of first use, references at top level and inside $or/$and/$not/"
